@@ -22,7 +22,7 @@ CHECKS = {
  "C08": dict(engine="E1", technique="runtime monitoring: TTL histories under a virtual clock, must-survive oracle over get / both read paths / raw keys",
              text="Exploration with the clock placed at ts+N-1 / ts+N / ts+N+1 of live frames and GC drains interleaved with reads; every frame that no rule allows to disappear must be returned by every path.",
              note=E1_NOTE, ref="§7 E1, §8 C08, App. A.4"),
- "C09": dict(engine="E1", technique="runtime monitoring: TTL histories under a virtual clock, must-be-gone oracle (ephemeral never stored but delivered live, time:N hidden then collected, head:N enforced after drain)",
+ "C09": dict(engine="E1", technique="runtime monitoring: TTL histories under a virtual clock, must-be-gone oracle (ephemeral never stored but delivered live, time:N hidden then collected, head:N enforced after drain); GC-backlog histories (more expired frames under one read than any bounded collector queue would hold)",
              text="Exploration; same histories as C08 with the opposite oracle, including a live follower per session and physical absence in the raw partitions after a covering read plus a GC drain.",
              note=E1_NOTE, ref="§7 E1, §8 C09, App. A.5"),
 }
@@ -30,13 +30,13 @@ CHECKS = {
 E2_NOTE = ("Trusted base: client-boundary timestamps from one monotonic clock; unique (writer,seq) metas; sync-point hooks that only sleep/park (20 ms logical timeout) "
            "and count coverage; watchdog expiry is inconclusive, never a violation. Held on the rounds and interleavings observed.")
 CHECKS.update({
- "C02": dict(engine="E2", technique="runtime monitoring: multi-writer stress with seeded jitter and directed parking at append sync points; offline history checker (snapshot monotonicity, last-id exactly-once, follower order)",
+ "C02": dict(engine="E2", technique="runtime monitoring: multi-writer stress with seeded jitter and directed parking at append sync points; offline history checker (snapshot monotonicity, last-id exactly-once, follower order); HTTP leg (parallel connections, NDJSON/SSE pollers); thorough: the same rounds under a ThreadSanitizer build (different schedule; race reports are observations)",
              text="Exploration of schedules: many short rounds on fresh stores with 2-8 writer threads, pollers, snapshot readers and followers; the schedule is moved by plain parallelism, seeded delays and directed parking between id assignment / commit / broadcast. Oracles look only at what clients were returned.",
              note=E2_NOTE, ref="§7 E2, §8 C02, App. A.6"),
- "C03": dict(engine="E2", technique="runtime monitoring: follow/append interleaving explorer with sync-point perturbation; exactly-once / order / threshold-position checker over the received sequence (A.7)",
+ "C03": dict(engine="E2", technique="runtime monitoring: follow/append interleaving explorer with sync-point perturbation; exactly-once / order / threshold-position checker over the received sequence (A.7); stalled-follower rounds, expired uncollected frames in the history; thorough: the same rounds under a ThreadSanitizer build",
              text="Exploration over history sizes around the 100-slot buffer, start positions, scopes and appenders racing the subscribe/scan/hand-off steps (jitter and directed parking); P/U/Q sets are computed from client-side call/return stamps.",
              note=E2_NOTE, ref="§7 E2, §8 C03, App. A.7"),
- "C11": dict(engine="E2", technique="runtime monitoring: read-option sweep and slow-consumer runs; sequence / closure / gap checker over received items (A.8)",
+ "C11": dict(engine="E2", technique="runtime monitoring: read-option sweep and slow-consumer runs; sequence / closure / gap checker over received items (A.8); thorough: the same rounds under a ThreadSanitizer build",
              text="Exploration of limit x history-size x follow mode x tail x last-id x scope, plus consumers that stall past the 1024+100 frame buffers during replay or afterwards; safety-shaped oracles (exact first n, nothing after the n-th, closes, never past an undelivered frame).",
              note=E2_NOTE, ref="§7 E2, §8 C11, App. A.8"),
 })
